@@ -65,7 +65,7 @@ def scenarios(rng, tier):
     out.append(dict(name="adf-create-close", backend="adf", prep=[], script=["open w adf", "close"]))
     out.append(dict(name="adf-write", backend="adf", prep=[], script=w_adf))
     out.append(dict(name="adf-modify", backend="adf", prep=[("f.cgns", w_adf)],
-                    script=["open m adf", "new / M0 Mod_t R8 700 %d" % r(), "wr /N0 R8 1200 %d" % r(), "del /N2", "move /N0/N5 /N3",
+                    script=["open m adf", "new / M0 Mod_t R8 700 %d" % r(), "wr /N0 R8 1200 %d" % r(), "del /N2", "rename /N0/N5 N5b", "move /N0/N5b /N3",
                             "rename /N3 N3b", "new / M1 Mod_t C1 40 %d" % r(), "rdpart /N0/N1 3 90", "version", "flush",
                             "setlabel /M0 Final_t", "move /N0/N1 /", "close"]))
     b_adf = ["open w adf", "new / T Tgt_t I4 50 %d" % r(), "new /T U Tgt_t I4 5 %d" % r(), "close"]
@@ -82,6 +82,13 @@ def scenarios(rng, tier):
     w_h5 = ["open w hdf5", "new / N0 Lab0_t I4 200 %d" % r(), "new /N0 N1 Lab1_t I4 200 %d" % r(), "new / N3 Lab3_t R8 600 %d" % r(),
             "wr /N0 I4 900 %d" % r(), "setlabel /N0/N1 Relabel_t", "link / L2 - /N3", "move /N0/N1 /", "rename /N3 N3b", "del /L2", "flush", "close"]
     out.append(dict(name="hdf5-write", backend="hdf5", prep=[], script=w_h5))
+    zn = rng.choice([3, 5])
+    out.append(dict(name="mll-write-adf", backend="adf", prep=[],
+                    script=["cgopen w adf", "base Base", "zone Zone1 %d" % zn, "coord CoordinateX %d" % r(), "sol Sol1", "field Density %d" % r(),
+                            "desc Info hello", "cgclose"]))
+    # the ADFH data writers (libhdf5 flushes its raw-data buffer in H5Dclose: witness of /repo e25ed5a)
+    out.append(dict(name="mll-write-hdf5", backend="hdf5", prep=[], all_hard=True,
+                    script=["cgopen w hdf5", "base Base", "zone Zone1 6", "coord CoordinateX %d" % r(), "sol Sol1", "field Density %d" % r(), "cgclose"]))
     # layout-tuned scenarios: the unchecked call site does real I/O only for particular file layouts (a data chunk larger than
     # a block whose 4-byte start tag ends a block; a link whose data chunk lies in the block after its node header).  The
     # size n of a filler node is searched (known value first) until a system call is made under the target call site.
@@ -100,6 +107,21 @@ def scenarios(rng, tier):
                         script=["open m hdf5", "new / Big0 Big_t R8 2000 %d" % r(), "del /Big0", "compress"]))
     for s in out:
         s.setdefault("files", ["f.cgns"])
+    return corpus() + out
+
+
+def corpus():
+    """corpus/C14b/*.json: fixed sessions with the call site under which every hard fault is injected (witnesses of repaired
+    defects, of seeded changes and of the current finding); always run first"""
+    out = []
+    cdir = os.path.join(vlib.ROOT, "corpus", "C14b")
+    for f in sorted(os.listdir(cdir)) if os.path.isdir(cdir) else []:
+        if f.endswith(".json"):
+            c = json.load(open(os.path.join(cdir, f)))
+            c["prep"] = [tuple(x) for x in c.get("prep", [])]
+            c["corpus_target"] = tuple(c.pop("target"))
+            c["all_hard"] = False
+            out.append(c)
     return out
 
 
@@ -187,6 +209,7 @@ def symbolize(exe, addrs):
 
 
 SRC_FILES = {"ADF_interface.c", "ADF_internals.c", "cgns_io.c"}
+MLL_FILES = {"cgnslib.c", "cgns_internals.c"}
 
 
 def chain_of(call, sym):
@@ -198,15 +221,20 @@ def chain_of(call, sym):
         frames += sym.get(a, [])
     frames.reverse()                                                   # outermost first
     while frames and frames[0][1] not in SRC_FILES:
-        frames.pop(0)                                                  # _start, main, ...
+        # _start, main, and the cg_* / cgi_* frames of the mid-level library above the one that calls cgio_* (the call graph
+        # among them is not modelled)
+        if frames[0][1] in MLL_FILES and len(frames) > 1 and frames[1][1] in SRC_FILES:
+            break
+        frames.pop(0)
     out, last = [], call["name"]
     for i, (fn, fl, ln) in enumerate(frames):
-        if fl not in SRC_FILES:
+        if fl not in SRC_FILES and not (i == 0 and fl in MLL_FILES):
             last = fn
             break
         if i + 1 < len(frames) and frames[i + 1][0] == fn + "_body":
             continue                                                   # the wrapper frame
-        out.append((fn[:-5] if fn.endswith("_body") else fn, ln))
+        wrapped = fn.endswith("_body") and i > 0 and frames[i - 1][0] == fn[:-5]
+        out.append((fn[:-5] if wrapped else fn, ln))
     edges = []
     for i, (fn, ln) in enumerate(out):
         callee = out[i + 1][0] if i + 1 < len(out) else last
@@ -372,6 +400,23 @@ def run_extra(ck, standalone=False):
     targets = {}                       # (caller, callee) -> kind: rows to replay
     for r in L["lossy"]:
         targets[(r["caller"], r["callee"])] = "bad" if any(b["caller"] == r["caller"] and b["callee"] == r["callee"] for b in L["bad"]) else "excepted"
+    target_lines = {}                  # the lines of the non-propagating rows of each pair (a pair may also have checked call sites)
+    for r in L["lossy"]:
+        target_lines.setdefault((r["caller"], r["callee"]), set()).add(r["line"])
+    for sc in scs:
+        if sc.get("corpus_target"):
+            targets.setdefault(sc["corpus_target"], "corpus")
+
+    def under(tkey, chain):
+        for (c, l, e) in chain:
+            if (c, e) == tkey:
+                if tkey not in target_lines:
+                    return True
+                i, row = tab.site(c, l, e)
+                if row is not None and row["line"] in target_lines[tkey]:
+                    return True
+        return False
+
     stats = {"scenarios": {}, "edges_seen": 0, "edges_without_row": {}, "rows_exercised": 0, "model_vs_impl": 0,
              "model_err_impl_ok": 0, "model_lost": 0, "replayed": {}}
     exercised = set()
@@ -430,7 +475,7 @@ def run_extra(ck, standalone=False):
         jobs, why = [], {}
         hard = [k for k in sorted(calls) if calls[k]["name"] in HARD and chains[k]]
         for tkey in targets:
-            pos = [k for k in hard if any((c, e) == tkey for (c, _, e) in chains[k])]
+            pos = [k for k in hard if under(tkey, chains[k])]
             if not pos:
                 continue
             per_target[tkey]["positions"] += len(pos)
@@ -450,7 +495,7 @@ def run_extra(ck, standalone=False):
                     jobs.append((k, kind)); why.setdefault((k, kind), []).append(tkey)
         others = [k for k in hard if not any((k, kd) in why for kd in ("eio", "enospc"))]
         ck.rng.shuffle(others)
-        for k in others[: (len(others) if big else 14)]:
+        for k in others[: (len(others) if big or sc.get("all_hard") else 14)]:
             jobs.append((k, "eio"))
         jobs = sorted(set(jobs))
         # the machine's verdict along each stack
@@ -477,6 +522,13 @@ def run_extra(ck, standalone=False):
             for tkey in why.get((k, kind), []):
                 per_target[tkey]["runs"] += 1
                 per_target[tkey]["reported"] += 1 if reported else 0
+                if not reported and r["injected"] and not r["problem"]:
+                    # a hard failure of a write / seek / close that NO call reported, the data being intact.  The property says
+                    # "some call no later than the close returns an error": for a row that newly breaks the obligation this is the
+                    # failing input; for an excepted pair (analysed one by one in notes/C14b.md) it is recorded only
+                    per_target[tkey]["unreported_data_intact"] = per_target[tkey].get("unreported_data_intact", 0) + 1
+                    if per_target[tkey]["kind"] == "bad":
+                        r["problem"] = "unreported"
             v = verdict.get((k, kind))
             if v and r["injected"] and r["outcome"] == "ok":
                 stats["model_vs_impl"] += 1
@@ -507,7 +559,7 @@ def run_extra(ck, standalone=False):
         # widened search: a dropped status is often noticed by a LATER operation on the same node (which then reports an
         # error, so the session as a whole is "reported").  For every target row that was reached here without a failing
         # input, the session is cut after the faulted operation (+ the final close) and the same fault is injected again.
-        if sc["script"][-1].startswith(("close", "compress")):
+        if sc["script"][-1].startswith(("close", "compress", "cgclose")):
             for tkey, info_t in per_target.items():
                 if info_t["problems"] or sc["name"] not in info_t["scenarios"]:
                     continue
@@ -560,7 +612,7 @@ def run_extra(ck, standalone=False):
         if f["backend"] == "hdf5" and f["problem"] in ("crash", "crash-on-reopen") and in_h5:
             key = "hdf5-compress-enospc-crash-on-next-open" if "compress" in f["scenario"] else "hdf5-write-failure-crash-inside-libhdf5"
         elif f["row"]:
-            key = "unchecked-status:%s:%s" % tuple(f["row"])
+            key = ("unreported-failure:%s:%s" if f["problem"] == "unreported" else "unchecked-status:%s:%s") % tuple(f["row"])
         else:
             key = None
         rec = dict(f, oracle="statuses + sanitizer + clean reopen vs the fault-free session's content",
@@ -572,7 +624,8 @@ def run_extra(ck, standalone=False):
         elif plain < 3:
             plain += 1
             ck.violation(rec)
-    bad_unfound = [b for b in L["bad"] if "unchecked-status:%s:%s" % (b["caller"], b["callee"]) not in reported_keys]
+    bad_unfound = [b for b in L["bad"] if "unchecked-status:%s:%s" % (b["caller"], b["callee"]) not in reported_keys and
+                   "unreported-failure:%s:%s" % (b["caller"], b["callee"]) not in reported_keys]
     obligations_broken = bool(broken) or not all(L["ok"]) or bool(forb)
     if (obligations_broken and bad_unfound) or (obligations_broken and not L["bad"] and not fails) or (corr_broken and not fails):
         ck.violation({"broken_obligations": broken and [{k: b[k] for k in ("obligation", "where")} for b in broken],
@@ -616,5 +669,7 @@ def replay(ck, path):
     st, oc, err = session(h, ipso, d0, sc["script"])
     ideal, _ = dump(h, d0, sc["files"])
     res = fault_case(h, ipso, base, sw, sc, [tuple(x) for x in r["faults"]], len(sc["script"]), ideal, "replay")
+    if r.get("problem") == "unreported" and not res["problem"] and res["injected"] and not any(res["statuses"]):
+        res["problem"] = "unreported"          # a hard write / seek / close failure that no call reported
     print("replay: fault-free statuses %s; with %s: %s -> property %s" % (st, r["faults"], json.dumps(res)[:900], "FAILS" if res["problem"] else "holds"))
     return 1 if res["problem"] else 0
